@@ -100,9 +100,12 @@ var props = map[string]propSpec{
 		{Pkg: "registration", Fn: "VerifC13TokenFetchFaults", Validate: 8},
 	}, Assumptions: with("single fault per call; faults fail without applying"), Explanation: "fault injector with symbolic failing-operation index and error kind"},
 	"C14": {Harnesses: []harnessSpec{
-		{Pkg: "protocol", Fn: "VerifC14ArbitraryAlpn", Validate: 8},
-		{Pkg: "protocol", Fn: "VerifC14Accept", Validate: 16},
-	}, Assumptions: with("crypto/tls's own parsing of raw bytes is trusted not to panic"), Explanation: "Accept/getTlsConfigForClient on arbitrary ALPN strings"},
+		{Pkg: "protocol", Fn: "VerifC14ArbitraryAlpn", Validate: 8, MustReach: []string{"end"}, Panics: true},
+		{Pkg: "protocol", Fn: "VerifC14ArbitraryAlpnReal", Validate: 8, MustReach: []string{"end"}, Panics: true},
+		{Pkg: "protocol", Fn: "VerifC14Accept", Validate: 16, MustReach: []string{"peer-rejected", "peer-accepted", "end"}, Panics: true, ShardBits: 2},
+		{Pkg: "protocol", Fn: "VerifC14AcceptThenHonest", Validate: 8, MustReach: []string{"peer-rejected", "honest-node-connected"}, Panics: true, ShardBits: 3},
+	}, Assumptions: with("crypto/tls's own parsing of raw bytes is trusted not to panic", "TLS handshake contract model (DESIGN 3.5); a peer's fatal alert reaches the server as an error shaped like *net.OpError (Temporary() == false)", "ALPN names are 1..255 bytes (TLS cannot carry others)"),
+		Explanation: "the TLS callback on 2-3 arbitrary ALPN strings (stubbed and real callees) and Accept against arbitrary-ALPN, non-TLS and aborting peers, followed by an honest node, a base-listener failure and closure"},
 	"C15": {Harnesses: []harnessSpec{
 		{Pkg: "protocol", Fn: "VerifC15WriteSet", Validate: 8},
 	}, Assumptions: with("reduced claim: write-set isolation only; interleavings and data races are not decided"), Explanation: "write-set isolation of one handshake over symbolic len/cap of the option slice"},
